@@ -364,8 +364,8 @@ def run(ctx):
     # (mode, save_every, histories, steps)
     # save_every 90 (about 15 chain blocks > alt_preserve): finalization then jumps by more than the preserved window
     # in one call, so blocks are deallocated that were never marked final before (fix 057feaed)
-    plan = [("fin", 1, 4, 110), ("loaded", 1, 4, 110), ("loaded", 3, 3, 110), ("fin", 4, 2, 110), ("fin", 90, 2, 150), ("finx", 45, 2, 110), ("finy", 3, 3, 130), ("drought", 1, 2, 70)] if quick else \
-           [("fin", 1, 40, 160), ("loaded", 1, 40, 160), ("loaded", 3, 30, 160), ("fin", 4, 20, 160), ("loaded", 7, 20, 200),
+    plan = [("bound", 1, 2, 40), ("fin", 1, 4, 110), ("loaded", 1, 4, 110), ("loaded", 3, 3, 110), ("fin", 4, 2, 110), ("fin", 90, 2, 150), ("finx", 45, 2, 110), ("finy", 3, 3, 130), ("drought", 1, 2, 70)] if quick else \
+           [("bound", 1, 10, 60), ("fin", 1, 40, 160), ("loaded", 1, 40, 160), ("loaded", 3, 30, 160), ("fin", 4, 20, 160), ("loaded", 7, 20, 200),
             ("fin", 90, 30, 200), ("fin", 16, 10, 200), ("finx", 45, 30, 160), ("finx", 20, 20, 160), ("finy", 3, 40, 200), ("drought", 1, 30, 110), ("drought", 3, 15, 110)]
     evaluations = 0
     hno = 0
@@ -374,15 +374,18 @@ def run(ctx):
         hs_ = []
         for _ in range(count):
             hno += 1
-            if mode == "drought":
+            if mode == "bound":
+                # directed: requested VBK height passes min(refs of the BTC tip) -1 / == / +1 (props/_c09sp.py)
+                g, ops = _c09sp.gen_boundary(ctx.rng.fork(), CFG_DROUGHT, steps)
+            elif mode == "drought":
                 g, ops = S.gen_twin_drought(ctx.rng.fork(), CFG_DROUGHT, steps)
             else:
                 g, ops = S.gen_twin(ctx.rng.fork(), CFG, steps, macro=(mode == "finy"))
             hs_.append((hno, (g, ops)))
             stats["steps"] += len(ops)
-        cfg_h = CFG_DROUGHT if mode == "drought" else CFG
-        emode = "fin" if mode == "drought" else mode
-        sc = build_script(hs_, emode, save_every, corr_every=(2 if emode == "fin" else (3 if mode == "finx" else 0)))
+        cfg_h = CFG_DROUGHT if mode in ("drought", "bound") else CFG
+        emode = "fin" if mode in ("drought", "bound") else mode
+        sc = build_script(hs_, emode, save_every, corr_every=(1 if mode == "bound" else 2 if emode == "fin" else (3 if mode == "finx" else 0)))
         rc, res, orc, err = run_script(binary, sc, ctx.work, "twin_%s_%d.txt" % (mode, save_every))
         crashed_h = None
         if rc != 0:
@@ -401,7 +404,7 @@ def run(ctx):
                 fails[crashed_h] = f1
             else:
                 ctx.broken.append("runner: h_store rc=%d %s" % (rc, err[-300:]))
-        if okm and mode in ("fin", "finx", "finy", "drought"):
+        if okm and mode in ("fin", "finx", "finy", "drought", "bound"):
             # model/implementation disagreement on finalizeBlocks: the model is not the specification, so look for a
             # concrete failing input first (the twin oracle of the same history), otherwise name the correspondence
             cbad = correspondence(ctx, model, sc, res, dict(hs_), stats)
